@@ -156,6 +156,16 @@ def run_job(contract, cfg, tier, budget_s):
         res["undecided"].append({"obligation": qn, "reason": "unsupported: %s" % e})
         res["wall_s"] = time.time() - t0
         return res
+    except (AttributeError, KeyError, IndexError, TypeError, z3.Z3Exception) as e:
+        # a contract clause (loop invariant, ghost hook) refers to a local or a shape that the current
+        # function text no longer has: the contract does not apply -> undecided, never a violation
+        tb = traceback.extract_tb(sys.exc_info()[2])
+        where = "%s:%d" % (os.path.basename(tb[-1].filename), tb[-1].lineno) if tb else '?'
+        res["status"] = "unsupported"
+        res["undecided"].append({"obligation": qn, "reason": "contract does not fit the current function text (%s: %s at %s)"
+                                 % (type(e).__name__, e, where)})
+        res["wall_s"] = time.time() - t0
+        return res
     res["paths"] = npaths
     res["covers"] = sorted(covers)
     res["vcs"] = len(vcs)
